@@ -628,3 +628,33 @@ func (m *Map) Clear() {
 		m.order = nil
 	})
 }
+
+// Pool replaces sync.Pool. A pool may hand back an item that was Put, or drop it: which of
+// the two happens is a recorded choice, so code that relies on getting its item back (or on
+// never getting a used one) meets both.
+type Pool struct {
+	New   func() any
+	items []any
+}
+
+func (p *Pool) Get() any {
+	if n := len(p.items); n > 0 {
+		if Draw(4) != 0 { // three times out of four the pool still has it
+			x := p.items[n-1]
+			p.items = p.items[:n-1]
+			return x
+		}
+		p.items = p.items[:n-1] // dropped, as after a garbage collection
+	}
+	if p.New != nil {
+		return p.New()
+	}
+	return nil
+}
+
+func (p *Pool) Put(x any) {
+	if x == nil {
+		return
+	}
+	p.items = append(p.items, x)
+}
